@@ -29,6 +29,9 @@ def run(ctx, R, tier):
     c08.drops(F, R)
     c08.reserve(F, R)
     c08.storage_loops(F, R)
+    # the distances / attenuation / strength a spatial track is built with are the ones it was configured with
+    from .c02 import setters
+    setters(F, R, rule='B.C15.setter', fn_filter=lambda q: 'spatial_builder' in q or q.startswith('listener::'), floor=4)
     tb = F.body(TRACK + '::process')
     if not R.check(tb is not None, 'B.C15.nolistener', 'anchor', 'Track::process not found'):
         return
